@@ -493,6 +493,14 @@ impl Configuration {
     }
 }
 
+#[cfg(lora_rs_verif)]
+impl Configuration {
+    /// Verification hook: plain-data copy of the channel plan, mask and join walker.
+    pub fn verif_snapshot(&self) -> crate::verif::VerifRegion {
+        region_dispatch!(self, verif_snapshot)
+    }
+}
+
 macro_rules! from_region {
     ($r:tt) => {
         impl From<$r> for Configuration {
